@@ -4,6 +4,8 @@ import Helios.Model.LB
 import Helios.Model.Admin
 import Helios.Model.Http
 import Helios.Model.Registry
+import Helios.Model.Ids
+import Helios.Model.Config
 /-
 Line-protocol driver: one operation per input line, one output line per operation.
 Core Lean only (compiled as the `driver` executable).  Every sub-model has its own
@@ -23,6 +25,10 @@ structure DState where
   admF : Admin.Filter := ⟨some [], some [], false⟩
   admTok : Admin.Text := []
   admSt : Admin.AState := {}
+  idCfg : Bool × String × Bool × String := (false, "", false, "")
+  idPlugins : List String := []
+  idRl : Option Nat := none       -- tokens left (none = limiter off)
+  idEjected : Bool := false
 
 def words (line : String) : List String :=
   (line.splitOn " ").filter (fun w => w != "")
@@ -353,9 +359,109 @@ def bcStep (spec : String) : String :=
   | some ss => if (Http.buildChain ss).isSome then "ok" else "err"
   | none => "bad-op"
 
+/-- Go's textproto.CanonicalMIMEHeaderKey for the header names the generator uses (ASCII tokens) -/
+def canonKey (k : String) : String :=
+  "-".intercalate ((k.splitOn "-").map (fun (p : String) =>
+    match p.toList with
+    | [] => ""
+    | c :: cs => String.ofList (c.toUpper :: cs.map Char.toLower)))
+
+/-- optional whitespace (SP, HTAB) that HTTP/1.1 header parsing removes around a value -/
+def trimOWS (b : Bytes) : Bytes :=
+  let f := fun (l : Bytes) => l.dropWhile (fun c => c == 32 || c == 9)
+  (f (f b).reverse).reverse
+
+def escBytes (b : Bytes) : String := if b.isEmpty then "-" else escStr (bytesToString b)
+
+def idStep (s : DState) : List String → DState × String
+  | ["new", ron, rh, ton, th, plugins, rl] =>
+    let rhn := let h := (bytesToString (Addr.trimSpace (unesc rh))); if h == "" then "X-Request-ID" else h
+    let thn := let h := (bytesToString (Addr.trimSpace (unesc th))); if h == "" then "X-Trace-ID" else h
+    ({ s with idCfg := (ron == "1", canonKey rhn, ton == "1", canonKey thn),
+              idPlugins := if plugins == "none" then [] else plugins.splitOn "+",
+              idRl := if rl == "1" then some 2 else none, idEjected := false },
+     "ok " ++ escStr (canonKey rhn) ++ " " ++ escStr (canonKey thn))
+  | ["req", rid, tr, key, blen, ej] =>
+    match blen.toNat? with
+    | none => (s, "bad-op")
+    | some n =>
+      let (ron, _, ton, _) := s.idCfg
+      let sup := fun (t : String) => if t == "none" then (none : Option Bytes) else some (trimOWS (unesc t))
+      let r0 := Ids.handle ron (sup rid) "req".toUTF8.toList []
+      let r1 := Ids.handle ton (sup tr) "trace".toUTF8.toList []
+      let ejected := s.idEjected || ej == "1"
+      -- which layer answers
+      let rec chain : List String → Option Nat
+        | [] => none
+        | "auth" :: ps => if key != "k1" then some 401 else chain ps
+        | "sl" :: ps => if n > 10 then some 413 else chain ps
+        | _ :: ps => chain ps
+      let early := chain s.idPlugins
+      let (status, contacted, rl') : Nat × Bool × Option Nat :=
+        match early with
+        | some c => (c, false, s.idRl)
+        | none =>
+          match s.idRl with
+          | some 0 => (429, false, some 0)
+          | rl =>
+            let rl' := rl.map (· - 1)
+            if ejected then (503, false, rl') else (200, true, rl')
+      let fmt := fun (pfx : String) (supplied : Option Bytes) (r : Option Bytes × Option Bytes) =>
+        let c := match r.2 with
+          | some v => if Ids.blank (supplied.getD []) then "GEN:" ++ pfx else escBytes v
+          | none => "none"
+        let rel :=
+          if !contacted then "nobackend"
+          else match r.1, r.2 with
+            | some _, some _ => "same"
+            | none, none => "both-absent"
+            | some v, none => "backend-only:" ++ escBytes v
+            | none, some _ => "DIFF:-"
+        c ++ "/" ++ rel
+      let h0' := fmt "req" (sup rid) r0
+      let h1 := fmt "trace" (sup tr) r1
+      ({ s with idRl := rl', idEjected := ejected }, s!"status={status} h0={h0'} h1={h1} dups=0")
+  | _ => (s, "bad-op")
+
+def cfgOf (fields : List (String × String)) : Cfg.Config :=
+  let g := fun (k : String) => ((fields.find? (·.1 == k)).map (·.2)).getD ""
+  let i := fun (k : String) => ((g k).toInt?).getD 0
+  let b := fun (k : String) => g k == "1"
+  let bes : List Cfg.Backend := ((g "b").splitOn ",").filterMap (fun (e : String) =>
+    match e.splitOn "|" with
+    | [n, a, w] => some ⟨bytesToString (unesc n), bytesToString (unesc a), (w.toInt?).getD 0⟩
+    | _ => none)
+  { backends := bes, port := i "port", tlsOn := b "tls", tlsCert := g "cert", tlsKey := g "key",
+    tRead := i "tr", tWrite := i "tw", tIdle := i "ti", tHandler := i "th", tShutdown := i "ts", tDial := i "td",
+    tBRead := i "tbr", tBIdle := i "tbi", strategy := g "strat", wsOn := b "ws", wsMaxIdle := i "wsi",
+    wsMaxActive := i "wsa", wsIdleTimeout := i "wst", actOn := b "act", actInterval := i "ai", actTimeout := i "at",
+    actPath := g "ap", pasOn := b "pas", pasThreshold := i "pt", pasTimeout := i "pto", rlOn := b "rl", rlMax := i "rlm",
+    rlRefill := i "rlr", cbOn := b "cb", cbMax := i "cbm", cbInterval := i "cbi", cbTimeout := i "cbt",
+    cbFailure := i "cbf", cbSuccess := i "cbs", metOn := b "met", metPort := i "mp", metPath := g "mpa",
+    admOn := b "adm", admPort := i "admp", logLevel := g "ll", logFormat := g "lf" }
+
+def cfgStep (compact : String) : String :=
+  let fields := (compact.splitOn ";").filterMap (fun (kv : String) =>
+    match kv.splitOn "=" with
+    | k :: rest => some (k, "=".intercalate rest)
+    | _ => none)
+  let c := cfgOf fields
+  match Cfg.validate c with
+  | some n => s!"load=err:{n}"
+  | none =>
+    -- startup: duplicate backend names are refused by AddBackend; the plugin chain must build
+    let names := c.backends.map (·.name)
+    let dup := names.length != names.eraseDups.length
+    let pl := ((fields.find? (·.1 == "pl")).map (·.2)).getD "none"
+    let plOk := pl == "none" || bcStep pl == "ok"
+    if dup || !plOk then "load=ok start=err" else "load=ok start=ok"
+
 def step (s : DState) (line : String) : DState × String :=
   match words line with
   | "rw" :: rest => (s, rwStep rest)
+  | ["cfg", _path, compact] => (s, cfgStep compact)
+  | ["cfgfile", _path] => (s, "load=ok start=ok")
+  | "id" :: rest => idStep s rest
   | ["bc", spec] => (s, bcStep spec)
   | "adm" :: rest => admStep s rest
   | "rl" :: rest => rlStep s rest
